@@ -34,7 +34,7 @@ Theorem c06_no_grant : forall c s l s' t0, Reachable c s -> step c s l = Some s'
 Proof. exact t_no_grant_when_closed. Qed.
 
 (* resize() on a closed pool has no effect *)
-Theorem c06_resize_noop : forall c s t n, pcof s t = OResize n -> closed s = true ->
+Theorem c06_resize_noop : forall c s t n, pcof s t = OResizeL n -> closed s = true ->
   step c s (Step t) = Some (tick (setpc s t (PDone RUnit))).
 Proof. exact resize_closed. Qed.
 
@@ -62,12 +62,12 @@ Definition cfg1 := {| max0 := 1; lifo := false; pre := []; post := []; pcr := []
 Definition tr_close : list label :=
   [Start 0 (OpGet g0); Step 0; Step 0; Step 0; Step 0; Env 0 OOk; Step 0;
    Start 1 (OpGet g0); Step 1; Step 1;
-   Start 2 OpClose; Step 2;
+   Start 2 OpClose; Step 2; Step 2;
    Step 1; Step 1;
    Start 3 (OpDrop 0); Step 3; Step 3; Step 3; Step 3;
    Start 4 (OpGet gnb); Step 4; Step 4; Step 4;
    Start 5 (OpGet g0); Step 5; Step 5; Step 5;
-   Start 6 (OpResize 3); Step 6].
+   Start 6 (OpResize 3); Step 6; Step 6].
 Example c06_nonvacuous :
   exists s, run cfg1 (init cfg1) tr_close = Some s /\ closed s = true /\ maxs s = 0 /\ vec s = []
             /\ pcof s 1 = PDone RClosed /\ pcof s 4 = PDone RClosed /\ pcof s 5 = PDone RClosed
